@@ -16,53 +16,53 @@ package acl
 //@ ghost pred storedTableNotFound() bool
 
 //@ callrule c28_basic_fact in (*Checker).CheckBasicACL
-//@   property C28
+//@   property C28 C29
 //@   callee (acl.Basic).IsOpAllowed
 //@   defines result ==> basicAllows(a0, a1)
 //@ func (*Checker).CheckBasicACL
-//@   property C28
+//@   property C28 C29
 //@   ensures [basic_acl_bit_for_op_and_role] result ==> basicAllows(info.Operation, info.RequestRole)
 
 //@ callrule c28_sticky_fact in (*Checker).StickyBitCheck
-//@   property C28
+//@   property C28 C29
 //@   callee (acl.Basic).Sticky
 //@   defines result == basicSticky()
 //@ func isOwnerFromKey
-//@   property C28
+//@   property C28 C29
 //@   defines result ==> ownerMatchesKey()
 //@ func (*Checker).StickyBitCheck
-//@   property C28
+//@   property C28 C29
 //@   ensures [sticky_requires_owner_key] result ==> info.RequestRole == acl.RoleContainer || !basicSticky() || (len(info.SenderKey) > 0 && ownerMatchesKey())
 
 //@ callrule c28_extendable_fact in (*Checker).CheckEACL
-//@   property C28
+//@   property C28 C29
 //@   callee (acl.Basic).Extendable
 //@   defines result == basicExtendable()
 //@ callrule c28_bearer_allowed_fact in (*Checker).CheckEACL
-//@   property C28
+//@   property C28 C29
 //@   callee (acl.Basic).AllowedBearerRules
 //@   defines result ==> bearerRulesAllowed(a0)
 //@ callrule c28_bearer_table_only_if_allowed in (*Checker).CheckEACL
-//@   property C28
+//@   property C28 C29
 //@   callee (bearer.Token).EACLTable
 //@   requires [bearer_table_used_only_when_bearer_rules_allowed] bearerRulesAllowed(old(reqInfo).Operation)
 //@ callrule c28_stored_table_fact in (*Checker).CheckEACL
-//@   property C28
+//@   property C28 C29
 //@   callee (container.EACLSource).GetEACL
 //@   defines err != nil && errIs(err, apistatus.ErrEACLNotFound) ==> storedTableNotFound()
 //@ callrule c28_validation_role in (*Checker).CheckEACL
-//@   property C28
+//@   property C28 C29
 //@   callee *ValidationUnit).WithRole
 //@   requires [owner_checked_as_user] old(reqInfo).RequestRole == acl.RoleOwner ==> a0 == eacl.RoleUser
 //@   requires [others_checked_as_others] old(reqInfo).RequestRole == acl.RoleOthers ==> a0 == eacl.RoleOthers
 //@ callrule c28_validation_op in (*Checker).CheckEACL
-//@   property C28
+//@   property C28 C29
 //@   callee *ValidationUnit).WithOperation
 //@   requires [operation_as_requested] uint32(a0) == uint32(old(reqInfo).Operation)
 //@ callrule c28_calc_fact in (*Checker).CheckEACL
-//@   property C28
+//@   property C28 C29
 //@   callee *Validator).CalculateAction
 //@   defines res0 == eacl.ActionAllow && res1 && err == nil ==> tableAllows()
 //@ func (*Checker).CheckEACL
-//@   property C28
+//@   property C28 C29
 //@   ensures [allowed_only_by_table_or_exemption] err == nil ==> !basicExtendable() || reqInfo.RequestRole == acl.RoleInnerRing || reqInfo.RequestRole == acl.RoleContainer || tableAllows() || storedTableNotFound()
